@@ -52,7 +52,9 @@ def replay(hist):
 
     for k, ev in enumerate(hist[1:], 1):
         op, arg = ev["op"], ev["arg"]
-        warm(cur)
+        last = k == len(hist) - 1          # (every transition is the last step of some emitted history)
+        if last:
+            warm(cur)
         before = project(cur)
         err = ""
         res = None
@@ -94,7 +96,7 @@ def replay(hist):
             return obs, {"step": k, "op": op, "what": "result class " + type(res).__name__}
         if p != want:
             return obs, {"step": k, "op": op, "arg": arg, "what": "result differs from the specification", "got": p, "want": want}
-        if op != "get_label":
+        if op != "get_label" and last:
             # reading each label of the RESULT gives that label's points of the result (not of the graph it was derived from)
             for l in res.labels:
                 sub = res.get_label(l)
